@@ -966,15 +966,15 @@ func Spec() *mon.Spec {
 			"first sequence number of a fresh store is 1 (pkg/store/storetest)",
 		},
 		Phases: []mon.Phase{
-			{Name: "short", Quick: 400, Thorough: 5000, Run: runShort, GoMaxProcs: 4, Timeout: 300 * time.Second},
-			{Name: "long", Quick: 6, Thorough: 60, Run: func(c *mon.Case) { runLong(c, "long") }, GoMaxProcs: 8, Batch: 1, Timeout: 600 * time.Second},
-			{Name: "cut", Quick: 6, Thorough: 40, Run: func(c *mon.Case) { runLong(c, "cut") }, GoMaxProcs: 8, Batch: 1, Timeout: 600 * time.Second},
-			{Name: "restart", Quick: 6, Thorough: 40, Run: func(c *mon.Case) { runLong(c, "restart") }, GoMaxProcs: 8, Batch: 1, Timeout: 600 * time.Second},
+			{Name: "short", Quick: 300, Thorough: 5000, Run: runShort, GoMaxProcs: 4, Timeout: 300 * time.Second},
+			{Name: "long", Quick: 4, Thorough: 60, Run: func(c *mon.Case) { runLong(c, "long") }, GoMaxProcs: 8, Batch: 1, Timeout: 600 * time.Second},
+			{Name: "cut", Quick: 4, Thorough: 40, Run: func(c *mon.Case) { runLong(c, "cut") }, GoMaxProcs: 8, Batch: 1, Timeout: 600 * time.Second},
+			{Name: "restart", Quick: 4, Thorough: 40, Run: func(c *mon.Case) { runLong(c, "restart") }, GoMaxProcs: 8, Batch: 1, Timeout: 600 * time.Second},
 		},
 		Floors: map[string]int{
-			"short_linearizable": 100, "short_overlapping_mutation_pairs": 300, "short_histories_with_shared_client": 80,
-			"long_ops": 6000, "long_acked_adds": 3000, "long_dir_visits": 500, "long_histories_with_shared_client": 1,
-			"restart_restarts": 4, "restart_open_ops": 1, "cut_replies_lost": 40, "cut_acked_adds": 500, "distinct_nontrivial": 80,
+			"short_linearizable": 100, "short_overlapping_mutation_pairs": 300, "short_histories_with_shared_client": 60,
+			"long_ops": 5000, "long_acked_adds": 2500, "long_dir_visits": 400, "long_histories_with_shared_client": 1,
+			"restart_restarts": 3, "restart_open_ops": 1, "cut_replies_lost": 30, "cut_acked_adds": 500, "distinct_nontrivial": 80,
 		},
 	}
 }
